@@ -184,6 +184,20 @@ CHECKS = {
        "Field names Builder/Mutable/String-colliding with the generated API are outside the grammar; @fp.Getter/@fp.With/@fp.Builder "
        "partial annotations and user-pre-defined methods are not generated. Struct shapes are sampled (seeded), not enumerated.",
   technique="TLA+ API/law specification model-checked with TLC; generator run on seeded struct grammars, generated code driven by reflection, events validated by TLC"),
+ "C15": dict(
+  text="JsonCodec.tla defines Enc / Dec / Faithful for int, string, Unit, Option, pointer, slice and objects with omitempty; TLC checks "
+       "Dec(Enc(x)) = x for every faithful value of every type of depth <= 3 and that the side condition is tight. The real "
+       "fp.Option / fp.Unit are run under encoding/json on 24 Go types (nested Options, pointers to and slices of Options, structs "
+       "with omitempty, 64-bit extremes, strings needing escapes): TLC (TraceJson) recomputes Enc(ty, x) and accepts only bytes that "
+       "parse to exactly that, a decoded value equal to Dec, and equality for faithful values; hostile input (noise, truncation, "
+       "wrong-typed documents, deep nesting; via encoding/json and direct UnmarshalJSON calls) must neither panic nor change an "
+       "Option/Unit target on error. @fp.Json structs from the C07 grammar go through gombok from the working tree: round trip, "
+       "byte comparison with an independently written public twin struct, and wrong-typed values late in valid documents decoded "
+       "into a pre-filled target whose deep copy must be unchanged on error (TraceGombokJson).",
+  note="Trusted: TLC, the token walk that parses emitted bytes, encoding/json itself (what it does to plain pointer/slice/struct "
+       "targets before reporting an error is not attributed to fp). Floats are not generated (no independent formatting oracle); "
+       "either.go's Marshal-only Left/Right are not covered. Struct shapes and values are sampled (seeded).",
+  technique="TLA+ codec specification model-checked with TLC; recorded Marshal/Unmarshal observations and decoder fuzz validated by TLC against it"),
  "C13": dict(
   level="translation_validation",
   text="GenFix.tla states the property as a transition system on the digest tree (a generator pass is a stuttering step, all passes "
